@@ -261,7 +261,55 @@ def run_mode_case(case):
     return out
 
 
-RUNNERS = {"query": run_query_case, "index": run_index_case, "mode": run_mode_case}
+def run_lazy_case(case):
+    """Family lazy (C07): a single-variable query whose domain is a one-shot
+    logging iterator; a history of evaluate()/next/close/drain; after every
+    step the pull log and the number of user-predicate calls are recorded."""
+    reset_library()
+    heap, index_of = world.build_world(case["W"])
+    log = []
+    q = json.loads(json.dumps(case["q"]))
+    dom = q["vars"][0]["dom"]
+
+    def gen():
+        for o in dom:
+            log.append(o)
+            yield heap[o - 1]
+
+    q["vars"][0]["decl"] = "iter"
+    q["vars"][0]["_iterator"] = gen()
+    b = QueryBuilder(q, heap)
+    b.build()
+    world.PredicatePlan.reset()
+    out = dict(case)
+    out["evs"] = []
+    it = None
+    for op in case["ops"]:
+        rec = {"op": op, "res": 0, "rows": [], "exc": "none"}
+        calls_before = world.PredicatePlan.calls
+        try:
+            if op == "new":
+                it = None            # an unfinished previous iterator is dropped (finalised) first
+                it = iter(b.query.evaluate())
+            elif op == "next":
+                try:
+                    rec["res"] = index_of.get(id(next(it)), -1)
+                except StopIteration:
+                    rec["res"] = 0
+            elif op == "close":
+                it.close()
+            elif op == "drain":
+                rec["rows"] = [index_of.get(id(r), -1) for r in it]
+        except Exception as e:
+            rec["exc"] = exc_name(e)
+        rec["pulls"] = list(log)
+        rec["calls"] = world.PredicatePlan.calls - calls_before
+        out["evs"].append(rec)
+    del out["ops"]
+    return out
+
+
+RUNNERS = {"query": run_query_case, "index": run_index_case, "mode": run_mode_case, "lazy": run_lazy_case}
 
 
 def run_case(case):
